@@ -83,3 +83,42 @@ Fixpoint dg_consume (ks : list N) (st : encdg) : res unit (bytes * encdg) :=
 
 Definition dg_view (st : encdg) : bytes :=
   firstn (N.to_nat (e_len st - e_pos st)) (skipn (N.to_nat (e_pos st)) (e_hdr st)) ++ concat (e_payload st).
+
+(* ---- the call sites (h3-datagram/src/datagram_handler.rs) ---- *)
+
+(* DatagramSender::send_datagram(data): handler.send_datagram(Datagram::new(self.stream_id, data).encode()); the transport
+   then empties the buffer chunk by chunk (has_remaining / chunk / advance(chunk.len())).  usize::MAX as the per-step limit
+   = "take the whole chunk"; remaining() steps always suffice (every chunk of a non-empty buffer is non-empty). *)
+Definition whole_chunk : N := 18446744073709551615.
+Definition dg_tx (sid : N) (payload : list bytes) : res unit bytes :=
+  match dg_new sid payload with
+  | Ok (s, p) =>
+      match dg_encode s p with
+      | Ok st =>
+          match dg_remaining st with
+          | Ok r =>
+              match dg_consume (repeat whole_chunk (N.to_nat r)) st with
+              | Ok (out, _) => Ok out
+              | Err e => Err e | Panic s => Panic s
+              end
+          | Err e => Err e | Panic s => Panic s
+          end
+      | Err e => Err e | Panic s => Panic s
+      end
+  | Err e => Err e | Panic s => Panic s
+  end.
+
+(* DatagramReader::read_datagram on one arriving QUIC datagram: Datagram::decode(d).map_err(|err|
+   self.handle_connection_error_on_stream(err)): the caller gets a connection-level error carrying err.code and the
+   connection driver closes the QUIC connection with that same code (ConnectionInner::close_if_needed). *)
+Inductive rx_result :=
+| RxDatagram (sid : N) (payload : bytes)
+| RxConnError (returned_code : N) (closed_with : N)
+| RxPanic (site : N).
+
+Definition dg_rx (bs : bytes) : rx_result :=
+  match dg_decode bs with
+  | Ok (s, p) => RxDatagram s p
+  | Err c => RxConnError c c
+  | Panic s => RxPanic s
+  end.
